@@ -6,18 +6,11 @@ import GmqttVerif.Proofs.BrokerPump
   minus the whole seconds the message waited, at least 1, never absent.
 
   Stated over the wire-level broker model (`Model/Broker.lean`, tied to the code by the stream `broker-expiry`).
-  Vocabulary (`B.enqElem`, `B.enqRefuse`, `PumpTrace`, `PumpRound`, `Round`, `Pkt.expiry`, `Pkt.core`) and helper
+  Vocabulary (`lifetime`, `B.enqElem`, `B.enqRefuse`, `PumpTrace`, `PumpRound`, `Round`, `Pkt.expiry`, `Pkt.core`) and helper
   lemmas: `Proofs/BrokerEnqueue.lean`, `Proofs/BrokerPump.lean`.
 -/
 namespace GmqttVerif.Broker
 open GmqttVerif.Deliver
-
-/-- the lifetime (s) of a message whose publisher asked for `orig` seconds (0 = no expiry) on a broker whose
-    `maximum_message_expiry` is `cfgMax` seconds (0 = no limit): the smaller of the two when both are set, the one
-    that is set when only one is, unlimited (`none`) when neither is -/
-def lifetime (orig cfgMax : Nat) : Option Nat :=
-  if orig = 0 then (if cfgMax = 0 then none else some cfgMax)
-  else if cfgMax = 0 then some orig else some (min orig cfgMax)
 
 /-- 1. `lifetime_capped`. Whenever `enqueue` accepts a copy `m` for the stored session `s` of client `cid`, the
     element it hands to the session queue's `Add` carries the fresh ghost tag and the expiry stamp
